@@ -103,7 +103,7 @@ def run_batch(run, module, mats, rads, name, invariants, action_constraints, wor
         elif line.startswith('"INFO '):
             o = json.loads(json.loads(line)[5:])
             info[o["m"] - 1] = o
-        elif line.startswith('"CFG ') or line.startswith('"TRI '):
+        elif line.startswith('"CFG ') or line.startswith('"TRI ') or line.startswith('"DGC '):
             s = json.loads(line)
             tables[s[:3]] = json.loads(s[4:])
     edges = [[] for _ in mats]
@@ -140,7 +140,27 @@ def lib_matrix(M, inf):
     return out
 
 
-def build_group(M, route="matrix", style="alpha", inf="zero"):
+# the diagram is documented as "an iterable of tuples": containers and one-shot iterables alike
+DIAGRAM_CONTAINERS = ["list", "tuple", "generator", "zip", "iterator", "map"]
+
+
+def pack_diagram(edges, container):
+    if container == "list":
+        return list(edges)
+    if container == "tuple":
+        return tuple(edges)
+    if container == "generator":
+        return (e for e in edges)
+    if container == "zip":
+        return zip([e[0] for e in edges], [e[1] for e in edges], [e[2] for e in edges])
+    if container == "iterator":
+        return iter(list(edges))
+    if container == "map":
+        return map(tuple, [list(e) for e in edges])
+    raise ValueError(container)
+
+
+def build_group(M, route="matrix", style="alpha", inf="zero", container="list"):
     """CoxeterGroup for the spec matrix M; the generator with spec index i+1 is names[i]."""
     from geometry_tools import coxeter
     rank = len(M)
@@ -156,7 +176,7 @@ def build_group(M, route="matrix", style="alpha", inf="zero"):
                 diagram.append((names[i], names[j], LM[i][j]))
             else:
                 diagram.append((names[j], names[i], LM[i][j]))
-        G = coxeter.CoxeterGroup(diagram=diagram)
+        G = coxeter.CoxeterGroup(diagram=pack_diagram(diagram, container))
     return G, names
 
 
